@@ -162,8 +162,8 @@ def judge(chk, case, plan, novmap, res, rows="normal"):
         elif (k == 1 or m == 1) and any(b for b, _ in obs):
             bad = f"{entry} m={m} k={k}: batched (vmap) differentiation used although sequential"
         elif any(abs(a - b) > 1e-9 * max(abs(b), 1.0 if rows.startswith("normal") else 0.0) for a, b in zip(res["grads"], res["expected"])):
-            bad = f"{entry} m={m} k={k} ({rows} rows): update {res['grads']} differs from {res['expected']}"
-    if bad and rows != "normal" and "sweeps" in bad:
+            bad = f"{entry} m={m} k={k} ({rows}): update {res['grads']} differs from {res['expected']}"
+    if bad and rows in ("zero", "tiny", "alltiny") and "sweeps" in bad:
         bad += f" ({rows} rows: every second loss has a zero / 2^-600-scaled gradient w.r.t. the features)"
     if bad:
         chk.violation(bad, rep)
